@@ -371,3 +371,13 @@ func init() {
 	RegisterNamed("BadMutB", BadMutB{})
 	markRecursive()
 }
+
+// Types that C17 registers marker codecs for.
+type MStr string
+type MInt int
+
+func init() {
+	RegisterNamed("MStr", MStr(""))
+	RegisterNamed("MInt", MInt(0))
+	markRecursive()
+}
